@@ -29,6 +29,9 @@ type Program struct {
 	repo        string
 	loadSecs    float64
 	reLits      map[string]string
+	// lemmaRegion: lemmas listed as known findings hold only outside the recorded region;
+	// wherever such a lemma is used as a fact it is weakened to (region || lemma)
+	lemmaRegion map[string]string
 }
 
 var pikePkgs = []string{"./cache", "./server", "./location", "./config", "./compress", "./upstream", "./util", "./store"}
@@ -358,7 +361,7 @@ func (g *gen) addAxioms(st *State) {
 			continue
 		}
 		e := &env{g: g, vars: map[string]binding{}, st: st, old: st, pkgPath: ax.PkgPath, imports: ax.Imports}
-		t, err := e.trBool(ax.E)
+		t, err := e.trBool(g.P.factOf(ax))
 		if err != nil {
 			if ax.Strings != g.c.strMode {
 				continue // does not translate in this string mode
@@ -667,4 +670,26 @@ func (g *gen) checkExitLocal(fr *frame, ex exitRec) {
 		}
 		g.addObl(ex.n, "ensures", "ensures_local:"+c.Label, c.Src, c.Where, t, false)
 	}
+}
+
+// factOf is the formula under which an axiom or lemma may be used as a fact.
+func (P *Program) factOf(ax *Axiom) Expr {
+	if !ax.Lemma {
+		return ax.E
+	}
+	region, ok := P.lemmaRegion[ax.Name]
+	if !ok {
+		return ax.E
+	}
+	if region == "" {
+		return &EBool{V: true} // a failing lemma without a region is never used
+	}
+	re, err := parseExpr(region)
+	if err != nil {
+		return &EBool{V: true}
+	}
+	if q, ok := ax.E.(*EQuant); ok && q.Forall {
+		return &EQuant{Forall: true, Vars: q.Vars, Patterns: q.Patterns, AltPatterns: q.AltPatterns, Body: &EBin{Op: "||", L: re, R: q.Body}}
+	}
+	return &EBin{Op: "||", L: re, R: ax.E}
 }
